@@ -74,6 +74,12 @@ def run_doc(ctx: Ctx, it: dict) -> None:
         return
     po = out["packages"][pkg]["roundtrips"]
     models = set()
+    # keys for which "absent == null" is tolerated: declared property names (never the keys of a map)
+    prop_names: set[str] = set()
+    for e in d.sexp.values():
+        for pn, pe in (e.get("props") or {}).items():
+            prop_names.add(pn)
+            prop_names.update((pe.get("props") or {}).keys())
     for r in rts:
         o = po["results"].get(r["id"])
         if o is None:
@@ -104,7 +110,7 @@ def run_doc(ctx: Ctx, it: dict) -> None:
                 cls = re.sub(r"\d+", "N", line)[:70]
             rec.violation(f"roundtrip:{o['stage']}_raises:{e['type']}:{cls}", feats, case, full[:400])
             continue
-        diff = refmodel.jdiff(r["json"], o["back"])
+        diff = refmodel.jdiff(r["json"], o["back"], optional_keys=prop_names)
         if diff:
             kind = "key_lost" if "lost" in diff else ("unexpected_key" if "unexpected key" in diff else "value_differs")
             rec.violation(f"roundtrip:{kind}", feats, case, diff[:300])
